@@ -320,7 +320,12 @@ impl Sim for SimB {
         }
     }
     fn default_runs(&self) -> (u64, u64) {
-        (30_000, 1_500_000)
+        match self.prop {
+            PropB::C03 => (300_000, 8_000_000),
+            PropB::C14 => (600_000, 15_000_000),
+            PropB::C15 => (1_000_000, 20_000_000),
+            PropB::C19 => (300_000, 8_000_000),
+        }
     }
 
     fn plan(&self, rng: &mut Rng, sub: usize) -> ScenarioB {
